@@ -58,7 +58,7 @@ func flipAt(tok []byte, needle []byte, off int) []byte {
 
 func newC19Fixtures() *c19Fixtures {
 	cl := c02Claims()
-	f := &c19Fixtures{absA: cl[0], absB: cl[2], absC: cl[3], k1: fixtures.Get("ES256", 1), k2: fixtures.Get("ES256", 2), k384: fixtures.Get("ES384", 1)}
+	f := &c19Fixtures{absA: cl[0], absB: cl[2], absC: cl[3], k1: fixtures.Get("ES256", 1), k2: fixtures.Get("ES256", 2), k384: fixtures.Get("ES512", 1)} // the third good signer: another algorithm (ES512, P-521: 132-byte signatures)
 	inv := *cl[0]
 	inv.ImplID = bp(pat(31, 1))
 	f.absInvalid = &inv
@@ -66,7 +66,7 @@ func newC19Fixtures() *c19Fixtures {
 	f.signers = []c19Signer{
 		{"good-k1", f.k1, func() cose.Signer { return f.k1.Signer() }},
 		{"good-k2", f.k2, func() cose.Signer { return f.k2.Signer() }},
-		{"good-k384-other-algorithm", k384, func() cose.Signer { return k384.Signer() }},
+		{"good-k521-other-algorithm", k384, func() cose.Signer { return k384.Signer() }},
 		{"returns-error", nil, func() cose.Signer {
 			return fakeSigner{cose.AlgorithmES256, func(io.Reader, []byte) ([]byte, error) { return nil, errors.New("hsm unavailable") }}
 		}},
@@ -81,7 +81,7 @@ func newC19Fixtures() *c19Fixtures {
 			return fakeSigner{cose.Algorithm(-999), inner.Sign}
 		}},
 		{"algorithm-key-mismatch", nil, func() cose.Signer {
-			inner := k384.Signer()
+			inner := fixtures.Get("ES384", 1).Signer()
 			return fakeSigner{cose.AlgorithmES256, inner.Sign}
 		}},
 	}
@@ -154,7 +154,8 @@ func c19System() bfs.System {
 		idx  int
 	}
 	var ops []opDef
-	ops = append(ops, opDef{"SetClaims(A)", "set", 0}, opDef{"SetClaims(B)", "set", 1}, opDef{"SetClaims(invalid)", "set", 2})
+	ops = append(ops, opDef{"SetClaims(A)", "set", 0}, opDef{"SetClaims(B)", "set", 1}, opDef{"SetClaims(invalid)", "set", 2},
+		opDef{"SetClaims(W: derived profile, exactly 24 claims)", "set", 3})
 	for i, s := range fx.signers {
 		ops = append(ops, opDef{"Sign(" + s.name + ")", "sign", i})
 	}
@@ -172,7 +173,9 @@ func c19System() bfs.System {
 		opDef{"cp := *ev; cp.SetClaims(B); cp.Sign(good-k2)", "copy", 2}, opDef{"cp := *ev; cp.Sign(returns-error)", "copy", 3})
 	_ = nS
 	_ = nT
-	abs := []*refmodel.Claims{fx.absA, fx.absB, fx.absInvalid}
+	wide := *fx.absC
+	wide.Canon, wide.Profile = ExtWideName, sp(ExtWideName)
+	abs := []*refmodel.Claims{fx.absA, fx.absB, fx.absInvalid, &wide}
 	run := func(hist []int) bfs.Outcome {
 		var out bfs.Outcome
 		ev := &psatoken.Evidence{}
@@ -194,6 +197,9 @@ func c19System() bfs.System {
 				x, err := realise(abs[op.idx])
 				if err != nil {
 					panic(err)
+				}
+				if w, ok := x.(*ExtWideClaims); ok {
+					w.SetExtras(14) // 10 base claims + 14 vendor claims
 				}
 				before := ev.Claims
 				err = ev.SetClaims(x)
@@ -364,7 +370,7 @@ func c19System() bfs.System {
 			}
 		}
 		v3 := ev.Verify(fx.k384.Pub)
-		if raw384 := present && len(sig) > 0 && prot != nil && rawVerify("ES384", fx.k384.Pub, prot, payload, sig); raw384 {
+		if raw384 := present && len(sig) > 0 && prot != nil && rawVerify("ES512", fx.k384.Pub, prot, payload, sig); raw384 {
 			sigClass = "valid-" + fx.k384.Name
 		} else if v3 == nil {
 			fail("C19:verify-disagrees-with-independent-check", "Verify(%s) succeeds but the signature does not verify over the held envelope", fx.k384.Name)
